@@ -206,7 +206,20 @@ class StmtMixin:
                 body = self.cond(gen.elt, s2)
                 rs.append(z_implies(z_and(*conds), body) if which == "all" else z_and(*conds, body))
             return bool_val(z_and(*rs) if which == "all" else z_or(*rs))
-        if info.kind == "indexed":
+        dmeta = getattr(info, "dict_items", None)
+        if dmeta is None and isinstance(src.ty, T.Dict) and not src.is_py:
+            dmeta = (src.ty, lift(src), "keys")
+        if dmeta is not None:
+            # quantify over the domain, not over key positions
+            dt, dterm, mode = dmeta
+            x = fresh(dt.k, "qk")
+            d = dt.sort()
+            guard = z3.Select(d.dom(dterm), x)
+            kv = Val(dt.k, x)
+            vv = Val(dt.v, z3.Select(d.map(dterm), x))
+            item = {"items": Val(PYOBJ, None, (kv, vv), True), "keys": kv, "values": vv}[mode]
+            vars_ = [x]
+        elif info.kind == "indexed":
             i = z3.Int(fresh_name("qi"))
             guard = z3.And(i >= 0, i < info.n)
             item = info.item(i)
@@ -387,6 +400,12 @@ class StmtMixin:
             outs = m(node, st)
         else:
             outs = self.simple(m, node, st)
+        gh = self.c.ghost.get(ast.unparse(node).split("\n")[0]) if self.c and self.c.ghost else None
+        if gh:
+            self._ghost_seen.add(ast.unparse(node).split("\n")[0])
+            for s2, o in outs:
+                if o.kind == "normal":
+                    self.run_ghost(gh, s2)
         if hint:
             for s2, o in outs:
                 if o.kind == "normal":
@@ -395,6 +414,22 @@ class StmtMixin:
                         self.oblige(s2, g, "assert", f"hint@L{node.lineno}", node, info={"clause": h})
                         s2.assume(z3bool(g))
         return outs
+
+    def run_ghost(self, stmts, st):
+        """Ghost updates: may only assign declared ghost variables (checked), never program state."""
+        save = self.spec_mode
+        self.spec_mode = True
+        try:
+            for src in stmts:
+                for gn in ast.parse(src).body:
+                    names, fields, _ = assigned_names([gn])
+                    if fields or not names <= set(self.c.ghost_vars):
+                        raise ContractMisfit(f"ghost statement '{src}' assigns non-ghost state")
+                    outs = self.exec_stmt(gn, st)
+                    if len(outs) != 1 or outs[0][1].kind != "normal":
+                        raise ContractMisfit(f"ghost statement '{src}' branches")
+        finally:
+            self.spec_mode = save
 
     def simple(self, m, node, st):
         """Run a simple statement, turning pending exceptional exits into raise outcomes."""
@@ -460,8 +495,18 @@ class StmtMixin:
             if cur is None:
                 raise Unsupported("bare raise outside handler", node)
             return [(st, Outcome("raise", exc=cur, line=node.lineno))]
-        v = self.eval(node.exc, st)
         from .symex import ExcVal, FuncRef
+
+        if isinstance(node.exc, ast.Call):
+            fv = self.eval(node.exc.func, st)
+            if fv.is_py and isinstance(fv.py, FuncRef) and isinstance(fv.py.obj, type) and issubclass(fv.py.obj, BaseException):
+                try:
+                    for a in node.exc.args:
+                        self.eval(a, st.copy())
+                except Unsupported:
+                    self.dropped.append(f"L{node.lineno}: exception message of {fv.py.obj.__name__} not evaluated")
+                return [(st, Outcome("raise", exc=fv.py.obj.__name__, line=node.lineno))]
+        v = self.eval(node.exc, st)
 
         if v.is_py and isinstance(v.py, ExcVal):
             return [(st, Outcome("raise", exc=v.py.name, line=node.lineno))]
@@ -616,8 +661,11 @@ class StmtMixin:
         s_then.assume(c)
         s_else = st.copy()
         s_else.assume(z3.Not(c))
-        o1 = self.exec_block(node.body, s_then)
-        o2 = self.exec_block(node.orelse, s_else) if node.orelse else [(s_else, Outcome("normal"))]
+        o1 = self.exec_block(node.body, s_then) if self.feasible(s_then) else []
+        if not self.feasible(s_else):
+            o2 = []
+        else:
+            o2 = self.exec_block(node.orelse, s_else) if node.orelse else [(s_else, Outcome("normal"))]
         n1 = [(s, o) for s, o in o1 if o.kind == "normal"]
         n2 = [(s, o) for s, o in o2 if o.kind == "normal"]
         others = [(s, o) for s, o in o1 + o2 if o.kind != "normal"]
@@ -626,6 +674,22 @@ class StmtMixin:
             if m is not None:
                 return res + others + [(m, Outcome("normal"))]
         return res + others + n1 + n2
+
+    def feasible(self, st) -> bool:
+        """Cheap in-process pruning of contradictory paths (unknown counts as feasible)."""
+        if not st.pc:
+            return True
+        sol = z3.Solver()
+        sol.set("timeout", 300)
+        for p in st.pc:
+            if z3.is_quantifier(p):
+                continue
+            sol.add(p)
+        r = sol.check()
+        if r == z3.unsat:
+            self.pruned = getattr(self, "pruned", 0) + 1
+            return False
+        return True
 
     def merge(self, a: State, b: State, base: int):
         """join two states that share pc[:base]; a.pc[base] is the branch condition."""
